@@ -338,6 +338,17 @@ func c03(x *mon.Ctx) {
 				add(w, d.name+"-"+class, "", expect)
 			}
 			resigned("signer-from-foreign-pki", other.TcbSign, other.Root, "reject")
+			{ // a look-alike signer that also copies the genuine signer's serial number (and key identifier)
+				t := world.TcbSignTemplate(world.Far)
+				t.SerialNumber = base.PKI.TcbSign.Cert.SerialNumber
+				clone := world.Issue(t, other.Root, world.NewKey())
+				resigned("signer-lookalike-same-serial", clone, other.Root, "reject")
+				resigned("signer-lookalike-same-serial-own-root-in-header", clone, base.PKI.Root, "reject")
+				t2 := world.TcbSignTemplate(world.Far)
+				t2.SerialNumber = base.PKI.TcbSign.Cert.SerialNumber
+				selfs := world.Issue(t2, nil, world.NewKey())
+				resigned("signer-self-signed-same-serial", selfs, base.PKI.Root, "reject")
+			}
 			resigned("signer-foreign-root-own", other.TcbSign, base.PKI.Root, "reject")
 			resigned("signer-own-root-foreign", base.PKI.TcbSign, other.Root, "reject")
 			resigned("signer-is-pck-leaf", base.PKI.Leaf, base.PKI.Root, "reject")
